@@ -15,6 +15,12 @@ Notation byte := N (only parsing).
 Definition gm_prf (n : nat) (secret label seed : list byte) : list byte :=
   match prf12 hmac_sm3 n n secret label seed with Ok x => x | _ => [] end.
 
+(* exported keying material of a GMSSL connection: the model of ekmFromMasterSecret (Agree/KeyModel.v) over
+   HMAC-SM3; Agree/PrfSM3.v proves it equal to EKM_spec hmac_sm3 (RFC 5705 section 4 with P_SM3).  The context
+   is absent (None) or a possibly empty byte string *)
+Definition gm_ekm (n : nat) (ms cr sr label : list byte) (context : option (list byte)) : option (list byte) :=
+  match ekmFromMasterSecret_bytes hmac_sm3 n ms cr sr label context n with Ok x => Some x | _ => None end.
+
 (* key_block = PRF(master_secret, "key expansion", server_random + client_random), cut as
    client_write_MAC | server_write_MAC | client_write_key | server_write_key | client_write_IV | server_write_IV *)
 Definition gm_key_block (ms cr sr : list byte) (macLen keyLen ivLen : nat) :=
